@@ -232,21 +232,32 @@ def chop(rng, s, bounds, mode):
 
 
 def float_probes(stream):
-    out, seen, i = [], set(), 0
-    while len(out) < 20000:
-        i = stream.find(b"F", i)
-        if i < 0:
+    """texts whose ParseFloat value the model may ask for: the argument of every possible FLOAT opcode, read the way
+    og-rek reads it (to the next newline, or to the end of the frame's payload)"""
+    out, seen = [], set()
+
+    def scan(buf):
+        i = 0
+        while len(out) < 20000:
+            i = buf.find(b"F", i)
+            if i < 0:
+                break
+            j = buf.find(b"\n", i)
+            t = buf[i + 1:] if j < 0 else buf[i + 1:j]
+            if j >= 0 and t.endswith(b"\r"):
+                t = t[:-1]
+            if 0 < len(t) <= 40 and t not in seen:
+                out.append(t)
+                seen.add(t)
+            i += 1
+    scan(stream)
+    k = 0
+    while k + 4 <= len(stream):
+        n = struct.unpack(">I", stream[k:k + 4])[0]
+        if n > 500 * 1024 * 1024:
             break
-        j = stream.find(b"\n", i)
-        if j < 0:
-            j = len(stream)
-        t = stream[i + 1:j]
-        if t.endswith(b"\r") and j < len(stream):
-            t = t[:-1]
-        if 0 < len(t) <= 40 and t not in seen:
-            out.append(t)
-            seen.add(t)
-        i += 1
+        scan(stream[k + 4:k + 4 + n])
+        k += 4 + n
     return [t.hex() for t in out]
 
 
